@@ -13,6 +13,7 @@ import (
 	"context"
 	"fmt"
 	"sync"
+	"syscall"
 	"testing"
 	"time"
 
@@ -471,6 +472,7 @@ func vReloadRun(out *vOut, rng *vRand) {
 	}
 	// how the collector is asked to stop: Shutdown(), cancelled Run context, asynchronous error
 	stopHow := rng.Intn(3)
+	sighup := rng.Bool() // reload trigger: SIGHUP or a config-watch event
 	runCtx, runCancel := context.WithCancel(context.Background())
 	defer runCancel()
 	// one global sequence over all generations: every event is stamped
@@ -541,7 +543,11 @@ func vReloadRun(out *vOut, rng *vRand) {
 					prov.mu.Lock()
 					wf := prov.watcher
 					prov.mu.Unlock()
-					go wf(&confmap.ChangeEvent{}) // configuration changed: reload
+					if sighup {
+						go func() { col.signalsChannel <- syscall.SIGHUP }() // the branch Run takes on a real SIGHUP
+					} else {
+						go wf(&confmap.ChangeEvent{}) // configuration changed: reload
+					}
 				} else {
 					switch stopHow {
 					case 0:
@@ -644,6 +650,9 @@ func vReloadRun(out *vOut, rng *vRand) {
 	out.Case(true, term)
 	out.Stat("reload="+scenario, 1)
 	out.Stat(fmt.Sprintf("stop-by=%d", stopHow), 1)
+	if ngen > 1 {
+		out.Stat(fmt.Sprintf("reload-trigger-sighup=%v", sighup), 1)
+	}
 	nprov := 0
 	for _, e := range vErrList(errAll) {
 		if e[0] == 9 {
